@@ -431,7 +431,9 @@ def _resp_entries(path, r, depth):
                     and sv[2][1][0] in ("msg", "submsg") and sv[2][1][1] == elem and sv[3] is None):
                 return None
             return base + [(sv[2][1][0] + "s", coll)]
-        return base + [("msgs", coll)]
+        # zero iterations on this path: the kind of the entries is the collection's (a prepare_hooks result is sub-messages)
+        subs = coll[0] == "call" and coll[1].endswith("prepare_hooks")
+        return base + [("submsgs" if subs else "msgs", coll)]
     return None
 
 
